@@ -5,7 +5,9 @@ VERIF = os.path.dirname(os.path.dirname(os.path.abspath(__file__)))
 REPO = os.environ.get("VERIF_REPO", "/repo")
 COQ = os.path.join(VERIF, "coq")
 DRIVER = os.path.join(VERIF, "ocaml", "driver")
-WORK = os.path.join(VERIF, ".work")
+WORK = os.environ.get("VERIF_WORK") or os.path.join(VERIF, ".work")       # per-run scratch (never /tmp by default)
+LOCKDIR = os.path.join(VERIF, ".work")                                      # the build lock is shared by all runs
+EVIDENCE = os.environ.get("VERIF_EVIDENCE_DIR") or os.path.join(VERIF, "evidence")
 
 # The implementation is always imported from /repo's working tree, never from site-packages.
 if REPO not in sys.path:
